@@ -41,6 +41,31 @@ impl Report {
             }
         }
     }
+    pub fn merge(&mut self, o: Report) {
+        self.cases += o.cases;
+        self.evaluations += o.evaluations;
+        self.skipped += o.skipped;
+        self.nontrivial += o.nontrivial;
+        self.mismatch_count += o.mismatch_count;
+        for m in o.mismatches {
+            let k = m["key"].as_str().unwrap_or("").to_string();
+            let have = self.mismatches.iter().filter(|x| x["key"] == k.as_str()).count();
+            if have < 3 && self.mismatches.len() < 2000 {
+                self.mismatches.push(m);
+            }
+        }
+        for (k, n) in o.by_key {
+            *self.by_key.entry(k).or_insert(0) += n;
+        }
+        for e in o.tool_errors {
+            self.tool_error(e);
+        }
+        for s in o.samples {
+            if self.samples.len() < 6 {
+                self.samples.push(s);
+            }
+        }
+    }
     pub fn to_json(&self) -> J {
         json!({
             "cases": self.cases, "evaluations": self.evaluations, "skipped_unmodelled": self.skipped,
